@@ -1,46 +1,61 @@
 --------------------------- MODULE FormatFamilies ----------------------------
 (* The finite families of files x decoder x flags over which C16 is checked   *)
 (* (MCFormats: every slicing) and from which the replayed plans are generated *)
-(* (GenFormats).  Profile selects the bounds.                                  *)
+(* (GenFormats).  Sweep selects how many values of the swept fields are taken: *)
+(* "core" (one representative per rule), "small", "all"; Profile how many flag *)
+(* sets ("quick" | "full" = all 32 subsets where flags matter).                *)
 EXTENDS FormatDriver
 
-CONSTANT Profile           \* "quick" | "full"
+CONSTANT Profile, Sweep
 Full == Profile = "full"
+Pick(core, small, all) == CASE Sweep = "core" -> core [] Sweep = "small" -> small [] Sweep = "all" -> all
 
 AllFlags == {"CONCATENATED", "TELL_NO_CHECK", "TELL_UNSUPPORTED_CHECK", "TELL_ANY_CHECK", "IGNORE_CHECK"}
 F0 == {{}}
 FCat == {{}, {"CONCATENATED"}}
-FTell == {{}, {"CONCATENATED"}, {"TELL_NO_CHECK"}, {"TELL_ANY_CHECK"}, {"TELL_NO_CHECK", "TELL_ANY_CHECK", "CONCATENATED"},
-          {"TELL_UNSUPPORTED_CHECK"}, {"IGNORE_CHECK", "CONCATENATED"}, {"TELL_UNSUPPORTED_CHECK", "TELL_ANY_CHECK"},
-          AllFlags}
-FAll == IF Full THEN SUBSET AllFlags ELSE FTell
+\* what the xz tool passes (without / with --single-stream)
+FCli == {{"CONCATENATED", "TELL_UNSUPPORTED_CHECK"}, {"TELL_UNSUPPORTED_CHECK"}}
+FCore == {{}, {"CONCATENATED"}, {"TELL_NO_CHECK", "TELL_ANY_CHECK", "CONCATENATED"}, {"TELL_ANY_CHECK", "IGNORE_CHECK"}}
+FSome == IF Full THEN SUBSET AllFlags
+         ELSE Pick(FCore, FCore \cup {{"TELL_NO_CHECK"}, AllFlags},
+                   FCore \cup {{"TELL_NO_CHECK"}, {"TELL_ANY_CHECK", "CONCATENATED"}, {"IGNORE_CHECK"}, AllFlags})
+FAll == IF Full THEN SUBSET AllFlags
+        ELSE FSome \cup Pick({}, {{"TELL_UNSUPPORTED_CHECK"}}, {{"TELL_UNSUPPORTED_CHECK"}, {"IGNORE_CHECK", "CONCATENATED"},
+                                                           {"TELL_UNSUPPORTED_CHECK", "TELL_ANY_CHECK"}})
 
 Cases(fds, apis, fls) == {<<f, a, fl>> : f \in fds, a \in apis, fl \in fls}
 
 (* ------------------------------------------------------------------ .lzma *)
 D16 == Pow2W(16)
 P0 == 93                       \* lc=3 lp=0 pb=2
-DictSet ==
+PropsSet == Pick({40, 93, 225}, {0, 4, 5, 36, 40, 44, 45, 76, 93, 224, 225, 253, 255}, 0..255)
+DictCore == {<<0, 0>>, MaxW, <<5, 0>>, <<6, 0>>, AddW(Pow2W(31), Pow2W(30)), AddW(Pow2W(31), <<1, 0>>)}
+DictSmall == DictCore \cup {DecW(MaxW), Pow2W(0), Pow2W(12), Pow2W(25), Pow2W(31), <<7, 0>>, <<1, 1>>,
+                            AddW(Pow2W(25), Pow2W(24)), AddW(Pow2W(16), Pow2W(14))}
+DictAll ==
     {Pow2W(n) : n \in 0..31} \cup {AddW(Pow2W(n), Pow2W(n - 1)) : n \in 1..31}
     \cup {AddW(Pow2W(n), <<1, 0>>) : n \in {1, 2, 12, 16, 24, 31}}
     \cup {AddW(Pow2W(n), Pow2W(n - 2)) : n \in {2, 3, 16, 20, 31}}
     \cup {AddW(AddW(Pow2W(n), Pow2W(n - 1)), Pow2W(n - 2)) : n \in {2, 16, 30}}
     \cup {DecW(Pow2W(n)) : n \in {3, 12, 16, 17, 24, 31}}
     \cup {<<0, 0>>, MaxW, DecW(MaxW), <<65535, 0>>, <<0, 65535>>, <<4660, 22136>>}
+DictSet == Pick(DictCore, DictSmall, DictAll)
 PayloadOK(u, n, e, t) ==
     /\ (u = "small" => n > 0)
     /\ (t > 0 => PayloadVerdict(UsizeValue(UszBytes(u, n)), TRUE, n, e).v # "TRUNC")
-AloneProps == {AloneDesc(p, D16, "unknown", 2, TRUE, 0, 0) : p \in 0..255}
+AloneProps == {AloneDesc(p, D16, "unknown", 2, TRUE, 0, 0) : p \in PropsSet}
 AloneDicts == {AloneDesc(P0, d, "unknown", 2, TRUE, 0, 0) : d \in DictSet}
-AloneSizes == {AloneDesc(P0, D16, u, n, e, t, 0) : u \in UszClasses, n \in {0, 2}, e \in BOOLEAN, t \in {0, 1, 3}}
+AloneSizes == {AloneDesc(P0, D16, u, n, e, t, 0) : u \in UszClasses, n \in Pick({2}, {0, 2}, {0, 2}), e \in BOOLEAN,
+                                                    t \in Pick({0, 3}, {0, 1, 3}, {0, 1, 3})}
 AloneSizesOK == {f \in AloneSizes : PayloadOK(f.usz, f.n, f.eopm, f.trail)}
 AloneCuts == {AloneDesc(P0, D16, ue[1], 2, ue[2], 0, c) :
-                 ue \in {<<"unknown", TRUE>>, <<"exact", TRUE>>, <<"exact", FALSE>>}, c \in 1..23}
+                 ue \in {<<"unknown", TRUE>>, <<"exact", TRUE>>, <<"exact", FALSE>>},
+                 c \in Pick({1, 10, 13, 22}, {1, 2, 3, 4, 9, 10, 11, 17, 18, 22, 23}, 1..23)}
 AloneCutsOK == {f \in AloneCuts : f.cut <= AloneLen(f)}
 AloneCases ==
     Cases(AloneProps, {"alone", "auto"}, F0) \cup Cases(AloneProps, {"auto"}, {{"TELL_NO_CHECK"}})
     \cup Cases(AloneDicts, {"alone", "auto"}, F0)
-    \cup Cases(AloneSizesOK, {"alone"}, F0) \cup Cases(AloneSizesOK, {"auto"}, FAll)
+    \cup Cases(AloneSizesOK, {"alone"}, F0) \cup Cases(AloneSizesOK, {"auto"}, FSome)
     \cup Cases(AloneCutsOK, {"alone"}, F0) \cup Cases(AloneCutsOK, {"auto"}, FCat \cup {{"TELL_ANY_CHECK"}})
     \cup Cases({AloneDesc(P0, D16, "unknown", 2, TRUE, 0, 0), AloneDesc(P0, D16, "exact", 2, FALSE, 3, 0)},
                {"lzip", "stream"}, FCat)
@@ -48,50 +63,63 @@ AloneCases ==
 (* -------------------------------------------------------------------- .lz *)
 M1 == Member(1, 12, 2)
 M0 == Member(0, 12, 2)
-LzDs  == {LzipDesc(<<Member(v, ds, 2)>>, <<>>, 0) : ds \in 0..255, v \in {1}}
-        \cup {LzipDesc(<<Member(0, ds, 2)>>, <<>>, 0) : ds \in {11, 12, 44, 29, 30, 157}}
-LzVer == {LzipDesc(<<Member(v, 12, 2)>>, <<>>, 0) : v \in {0, 1, 2, 3, 255}}
-LzFoot == {LzipDesc(<<[Member(v, 12, n) EXCEPT !.crc = c, !.dsz = d, !.msz = m]>>, t, 0) :
-              v \in {0, 1}, n \in {0, 2}, c \in {0, 1}, d \in {-1, 0, 1}, m \in {-1, 0, 1}, t \in {<<>>, <<88, 89>>}}
+DsSet == Pick({11, 12, 44, 157}, {0, 11, 12, 13, 25, 26, 29, 30, 44, 58, 61, 157, 253, 255}, 0..255)
+LzDs  == {LzipDesc(<<Member(1, ds, 2)>>, <<>>, 0) : ds \in DsSet}
+        \cup {LzipDesc(<<Member(0, ds, 2)>>, <<>>, 0) : ds \in Pick({}, {11, 44}, {11, 12, 44, 29, 30, 157})}
+LzVer == {LzipDesc(<<Member(v, 12, 2)>>, <<>>, 0) : v \in Pick({0, 1, 2}, {0, 1, 2, 255}, {0, 1, 2, 3, 255})}
+Faults == Pick({<<0, 0, 0>>, <<1, 0, 0>>, <<0, 1, 0>>, <<0, 0, 1>>, <<0, 0, -1>>},
+               {<<0, 0, 0>>, <<1, 0, 0>>, <<0, 1, 0>>, <<0, -1, 0>>, <<0, 0, 1>>, <<0, 0, -1>>, <<1, 1, 1>>},
+               {<<c, d, m>> : c \in {0, 1}, d \in {-1, 0, 1}, m \in {-1, 0, 1}})
+LzFoot == {LzipDesc(<<[Member(v, 12, n) EXCEPT !.crc = x[1], !.dsz = x[2], !.msz = x[3]]>>, t, 0) :
+              v \in {0, 1}, n \in Pick({2}, {0, 2}, {0, 2}), x \in Faults, t \in Pick({<<>>}, {<<>>}, {<<>>, <<88, 89>>})}
 LzFootOK == {f \in LzFoot : f.mem[1].n + f.mem[1].dsz >= 0 /\ (f.mem[1].ver = 0 => f.mem[1].msz = 0)}
 LzMagic == {LzipDesc(<<[M1 EXCEPT !.magic = mg]>>, <<>>, 0) :
-              mg \in {<<255, 90, 73, 80>>, <<76, 88, 73, 80>>, <<76, 90, 88, 80>>, <<76, 90, 73, 88>>, <<76, 90, 73, 112>>}}
-Trails == {<<>>, <<88>>, <<0>>, <<88, 89, 90, 87, 86>>, <<76>>, <<76, 90>>, <<76, 90, 73>>, <<76, 88>>, <<76, 90, 88>>,
-           <<76, 90, 73, 88>>, <<76, 90, 73, 88, 1, 12>>, <<76, 90, 73, 80>>, <<76, 90, 73, 80, 2>>,
-           <<76, 90, 73, 80, 1>>, <<76, 90, 73, 80, 0, 11>>, <<76, 76, 90, 73, 80>>}
-BadSecond == {[M1 EXCEPT !.ver = 2], [M1 EXCEPT !.ds = 11], [M1 EXCEPT !.crc = 1], [M1 EXCEPT !.msz = 1],
-              [M0 EXCEPT !.dsz = 1], [M1 EXCEPT !.ds = 29]}
-LzCat == {LzipDesc(<<a>>, t, 0) : a \in {M1, M0}, t \in Trails}
-         \cup {LzipDesc(<<a, b>>, t, 0) : a \in {M1, M0}, b \in {M1, M0}, t \in {<<>>, <<88>>, <<76, 90>>, <<76, 90, 73, 80>>}}
+              mg \in Pick({<<76, 90, 88, 80>>}, {<<255, 90, 73, 80>>, <<76, 90, 73, 88>>},
+                          {<<255, 90, 73, 80>>, <<76, 88, 73, 80>>, <<76, 90, 88, 80>>, <<76, 90, 73, 88>>, <<76, 90, 73, 112>>})}
+TrailsCore == {<<>>, <<88>>, <<76>>, <<76, 90, 73>>, <<76, 90, 73, 88>>, <<76, 90, 73, 80>>, <<76, 90, 73, 80, 2>>}
+TrailsAll == TrailsCore \cup {<<0>>, <<88, 89, 90, 87, 86>>, <<76, 90>>, <<76, 88>>, <<76, 90, 88>>,
+           <<76, 90, 73, 88, 1, 12>>, <<76, 90, 73, 80, 1>>, <<76, 90, 73, 80, 0, 11>>, <<76, 76, 90, 73, 80>>}
+Trails == Pick(TrailsCore, TrailsAll, TrailsAll)
+BadSecond == Pick({[M1 EXCEPT !.ver = 2], [M1 EXCEPT !.msz = 1]},
+                  {[M1 EXCEPT !.ver = 2], [M1 EXCEPT !.ds = 11], [M1 EXCEPT !.crc = 1], [M1 EXCEPT !.msz = 1]},
+                  {[M1 EXCEPT !.ver = 2], [M1 EXCEPT !.ds = 11], [M1 EXCEPT !.crc = 1], [M1 EXCEPT !.msz = 1],
+                   [M0 EXCEPT !.dsz = 1], [M1 EXCEPT !.ds = 29]})
+LzCat == {LzipDesc(<<a>>, t, 0) : a \in Pick({M1}, {M1, M0}, {M1, M0}), t \in Trails}
+         \cup {LzipDesc(<<a, b>>, t, 0) : a \in Pick({M1}, {M1, M0}, {M1, M0}), b \in Pick({M0}, {M1, M0}, {M1, M0}),
+                                           t \in Pick({<<>>, <<76, 90>>}, {<<>>, <<88>>, <<76, 90>>}, {<<>>, <<88>>, <<76, 90>>, <<76, 90, 73, 80>>})}
          \cup {LzipDesc(<<M1, b>>, <<>>, 0) : b \in BadSecond}
-         \cup {LzipDesc(<<M1, M0, M1>>, <<76, 90, 73, 0>>, 0)}
-LzCuts == {LzipDesc(<<m>>, <<>>, c) : m \in {M1, M0}, c \in 1..36} \cup {LzipDesc(<<M1, M1>>, <<>>, c) : c \in 1..40}
+         \cup Pick({}, {}, {LzipDesc(<<M1, M0, M1>>, <<76, 90, 73, 0>>, 0)})
+LzCutSet == Pick({1, 13, 20, 21, 33, 36}, {1, 2, 8, 9, 12, 13, 19, 20, 21, 26, 29, 30, 32, 33, 34, 35, 36}, 1..40)
+LzCuts == {LzipDesc(<<m>>, <<>>, c) : m \in Pick({M1}, {M1, M0}, {M1, M0}), c \in LzCutSet}
+          \cup {LzipDesc(<<M1, M1>>, <<>>, c) : c \in LzCutSet}
 LzCutsOK == {f \in LzCuts : f.cut <= Len(FullTokens(f))}
 LzipCases ==
     Cases(LzDs \cup LzVer \cup LzMagic, {"lzip", "auto"}, F0)
     \cup Cases(LzVer \cup LzMagic, {"lzip", "auto"}, {{"TELL_ANY_CHECK", "CONCATENATED"}, {"TELL_NO_CHECK"}})
     \cup Cases(LzFootOK, {"lzip", "auto"}, {{}, {"CONCATENATED"}, {"IGNORE_CHECK"}, {"IGNORE_CHECK", "CONCATENATED"}})
-    \cup Cases(LzCat, {"lzip", "auto"}, FAll)
+    \cup Cases(LzCat, {"lzip", "auto"}, FSome)
     \cup Cases(LzCutsOK, {"lzip", "auto"}, FCat \cup {{"TELL_ANY_CHECK", "CONCATENATED"}})
     \cup Cases({LzipDesc(<<M1>>, <<>>, 0), LzipDesc(<<M1>>, <<>>, 30)}, {"alone", "stream"}, FCat)
 
 (* -------------------------------------------------------------------- .xz *)
 S(check, pad) == XzStream(check, 2, pad)
-XzPads == {XzDesc(<<S(1, p)>>, <<>>, 0) : p \in 0..9}
-          \cup {XzDesc(<<S(1, p), S(1, q)>>, <<>>, 0) : p \in 0..9, q \in {0, 4}}
-          \cup {XzDesc(<<S(1, p), S(0, q)>>, <<>>, 0) : p \in {0, 4}, q \in 0..9}
-          \cup {XzDesc(<<S(1, 4), S(1, 0), S(0, 8)>>, <<>>, 0)}
+PadSet == Pick(0..5, 0..9, 0..9)
+XzPads == {XzDesc(<<S(1, p)>>, <<>>, 0) : p \in PadSet}
+          \cup {XzDesc(<<S(1, p), S(1, q)>>, <<>>, 0) : p \in PadSet, q \in Pick({0}, {0, 4}, {0, 4})}
+          \cup {XzDesc(<<S(1, p), S(0, q)>>, <<>>, 0) : p \in Pick({4}, {0, 4}, {0, 4}), q \in PadSet}
+          \cup Pick({}, {}, {XzDesc(<<S(1, 4), S(1, 0), S(0, 8)>>, <<>>, 0)})
 XzChecks == {XzDesc(<<[S(c, 0) EXCEPT !.cbad = b]>>, <<>>, 0) : c \in {0, 1, 2}, b \in BOOLEAN}
-            \cup {XzDesc(<<S(c, 0), [S(d, 4) EXCEPT !.cbad = b]>>, <<>>, 0) : c \in {0, 1, 2}, d \in {0, 1, 2}, b \in BOOLEAN}
+            \cup {XzDesc(<<S(c, 0), [S(d, 4) EXCEPT !.cbad = b]>>, <<>>, 0) :
+                     c \in Pick({1}, {0, 1, 2}, {0, 1, 2}), d \in {0, 1, 2}, b \in BOOLEAN}
 XzChecksOK == {f \in XzChecks : \A k \in 1..Len(f.str) : f.str[k].cbad => f.str[k].check # 0}
 XzHdr == {XzDesc(<<[S(1, 0) EXCEPT !.hdr = 1]>>, <<>>, 0), XzDesc(<<S(1, 0), [S(1, 0) EXCEPT !.hdr = 1]>>, <<>>, 0),
           XzDesc(<<S(1, 4), [S(0, 0) EXCEPT !.hdr = 1], S(1, 0)>>, <<>>, 0)}
 Garbage(n) == [j \in 1..n |-> 87 + j]
-XzTrail == {XzDesc(<<S(1, p)>>, Garbage(g), 0) : p \in {0, 3, 4}, g \in {1, 2, 11, 12, 13}}
-XzCuts == {XzDesc(<<S(1, 0)>>, <<>>, c) : c \in 1..32}
+XzTrail == {XzDesc(<<S(1, p)>>, Garbage(g), 0) : p \in Pick({0, 3}, {0, 3, 4}, {0, 3, 4}), g \in Pick({1, 11, 12}, {1, 2, 11, 12, 13}, {1, 2, 11, 12, 13})}
+XzCuts == {XzDesc(<<S(1, 0)>>, <<>>, c) : c \in Pick({1, 12, 13, 21, 32}, {1, 2, 11, 12, 13, 16, 20, 21, 22, 31, 32}, 1..32)}
 XzCases ==
-    Cases(XzPads \cup XzHdr \cup XzTrail, {"stream", "auto"}, FCat)
-    \cup Cases(XzChecksOK, {"stream", "auto"}, FAll)
+    Cases(XzPads \cup XzHdr \cup XzTrail, {"stream", "auto"}, FCat \cup Pick({}, FCli, FCli))
+    \cup Cases(XzChecksOK, {"stream", "auto"}, FAll \cup Pick({}, FCli, FCli))
     \cup Cases(XzCuts, {"stream", "auto"}, FCat \cup {{"TELL_ANY_CHECK"}})
     \cup Cases({XzDesc(<<S(1, 0)>>, <<>>, 0)}, {"alone", "lzip"}, FCat)
 
